@@ -29,7 +29,14 @@ RULE = ("roundtrip_local: LagrangeGrid (boundary) / BSplineGrid (boundary on sub
         "(on/off/off+modified) fed with per-dimension refinement trees given as explicit split lists [leaf, ratio] "
         "(random leaf, always left-/right-most leaf, zig-zag, complete prefix of depth 1-3 + random; ratios 0.5, uniform "
         "[0.2,0.8], {0.2,0.8}; 1-40 splits in 1D, a share with >= 15 points in one dimension for d = 2), levels from the "
-        "tree. polynomials: the same two grid kinds with boundary (and B-spline modified for constants), a vector of "
+        "tree. One third of the global cases (round trip and polynomials) and one quarter of the local ones drive ONE grid "
+        "object (hence one integrator / hierarchisation object, as an adaptive run does) through a sequence of 2-4 "
+        "set_grid + integrate + interpolate rounds with a new nodal table per round: 'relabel' = the same point sets with "
+        "the levels of another valid refinement tree over them (random binary tree; median-rooted for B-splines - what a "
+        "rebalancing rotation produces), 'refine' = 1-4 further splits per dimension (superset), 'coarsen' = a prefix of "
+        "the split list (subset), 'back' = the first configuration again; local: other sub-boxes / level vectors and back. "
+        "Every clause is asserted after every round; a violation that appears only after earlier rounds (a fresh grid "
+        "object passes the same configuration) gets the signature suffix /only-after-earlier-rounds-on-the-same-grid-object. polynomials: the same two grid kinds with boundary (and B-spline modified for constants), a vector of "
         "monomials in the box-centred variable up to the demanded degree, evaluated at random points of the box. "
         "interpolate_grid: the tensor-grid interpolation API of both grid kinds. basis: one basis object (six classes), "
         "knots uniform / random increments / as the grids build them, cardinality, derivatives at random points inside "
@@ -50,7 +57,7 @@ ASSUMPTIONS = [
     "level. The unique-solvability clause (sigma_min > 1e-12 sigma_max) is asserted for every Lagrange grid, every "
     "local grid and for GlobalBSplineGrid on arithmetic-midpoint (ratio 0.5) trees - the only trees the library itself "
     "produces for it (get_mid_point = 0.5(start+end); missing hierarchy points are completed with arithmetic "
-    "midpoints, exterior knots are start+i*h); on weighted B-spline trees (a strongly graded 0.2-ratio tree of depth 11 "
+    "midpoints, exterior knots are start+i*h); on weighted or relabelled B-spline trees (a strongly graded 0.2-ratio tree of depth 11 "
     "has cond 1e14-1e17 by construction of these knots) an ill-conditioned matrix is counted, not reported",
     "round trip / reference-surplus / polynomial clauses use the tolerance scale*(1e-10 + 1e-13*cond) with cond = "
     "product over the dimensions of the 2-norm condition numbers of the 1D collocation matrices (built with the "
@@ -95,8 +102,9 @@ def _silent(fn, *a, **kw):
         return fn(*a, **kw)
 
 
-def build_tree(a, b, splits):
-    """splits: [[leaf_index, ratio], ...] -> (points, levels) as python lists (floats / ints)."""
+def build_tree(a, b, splits, max_level=None):
+    """splits: [[leaf_index, ratio], ...] -> (points, levels) as python lists (floats / ints).
+    A split that would create a level above max_level is ignored."""
     pts = [float(a), float(b)]
     lev = [0, 0]
     for idx, ratio in splits:
@@ -105,9 +113,34 @@ def build_tree(a, b, splits):
         m = pts[i] + (pts[i + 1] - pts[i]) * r
         if not (pts[i] < m < pts[i + 1]):
             continue
+        if max_level is not None and max(lev[i], lev[i + 1]) + 1 > max_level:
+            continue
         pts.insert(i + 1, m)
         lev.insert(i + 1, max(lev[i], lev[i + 1]) + 1)
     return pts, lev
+
+
+def relabel(pts, rng, balanced):
+    """levels of another valid refinement tree over the same sorted point set (what a rotation of the rebalancing in
+    SpatiallyAdaptiveSingleDimensions2 produces: same points, other parents).  A random binary tree over the interior
+    points; balanced=True roots every subtree at its median (+-1), which bounds the depth by log2(n)+2 (needed for
+    GlobalBSplineGrid, which materialises 2^level entries per level)."""
+    lev = [0] * len(pts)
+    stack = [(1, len(pts) - 1, 1)]
+    while stack:
+        lo, hi, l = stack.pop()
+        if lo >= hi:
+            continue
+        if balanced:
+            r = (lo + hi - 1) // 2
+            if hi - lo >= 4:
+                r = min(hi - 1, max(lo, r + int(rng.integers(-1, 2))))
+        else:
+            r = int(rng.integers(lo, hi))
+        lev[r] = l
+        stack.append((lo, r, l + 1))
+        stack.append((r + 1, hi, l + 1))
+    return lev
 
 
 def complete_depth(lev):
@@ -263,9 +296,70 @@ class _Ctx(object):
         else:
             cls = G.GlobalLagrangeGrid if self.family == "lagrange" else G.GlobalBSplineGrid
             self.grid = cls(list(self.a), list(self.b), boundary=self.boundary, modified_basis=self.modified, p=self.p)
-            self.trees = [build_tree(self.a[d], self.b[d], case["trees"][d]) for d in range(self.dim)]
+            self.trees = [build_tree(self.a[d], self.b[d], case["trees"][d], case.get("max_level"))
+                          for d in range(self.dim)]
             self.start = np.array(self.a)
             self.end = np.array(self.b)
+            self.lv = [max(t[1]) for t in self.trees]
+        self.paths = case.get("paths")
+        self.nonmid = self.kind == "global" and _has_weighted_ratio(case["trees"])
+        self.round = 0
+        self.round_kind = "base"
+
+    def rounds(self):
+        """[(kind, config)]: the configurations this ONE grid object is driven through (round 0 = the base case)"""
+        import numpy as np
+        case = self.case
+        seq = case.get("seq") or []
+        if self.kind == "local":
+            base = dict(paths=case["paths"], lv=[int(l) for l in case["lv"]])
+            res = [("base", base)]
+            for r in seq:
+                if r["kind"] == "back":
+                    res.append(("back", base))
+                else:
+                    res.append(("area", dict(paths=r["paths"], lv=[int(l) for l in r["lv"]])))
+            return res
+        ml = case.get("max_level")
+
+        def cfg(splits):
+            return dict(trees=[build_tree(self.a[d], self.b[d], splits[d], ml) for d in range(self.dim)],
+                        nonmid=_has_weighted_ratio(splits))
+        base_splits = [list(t) for t in case["trees"]]
+        cur_splits, base = base_splits, cfg(base_splits)
+        cur = base
+        res = [("base", base)]
+        for r in seq:
+            k = r["kind"]
+            if k == "back":
+                cur_splits, cur = base_splits, base
+            elif k == "refine":
+                cur_splits = [cur_splits[d] + [list(t) for t in r["splits"][d]] for d in range(self.dim)]
+                cur = cfg(cur_splits)
+            elif k == "coarsen":
+                cur_splits = [cur_splits[d][:max(1, int(len(cur_splits[d]) * float(r["keep"][d])))] for d in range(self.dim)]
+                cur = cfg(cur_splits)
+            elif k == "relabel":
+                rr = np.random.default_rng(int(r["rng"]))
+                cur = dict(trees=[(list(t[0]), relabel(t[0], rr, self.family == "bspline")) for t in cur["trees"]],
+                           nonmid=True)
+            else:
+                raise ValueError(k)
+            res.append((k, cur))
+        return res
+
+    def apply(self, k, kind, config):
+        import numpy as np
+        self.round, self.round_kind = k, kind
+        if self.kind == "local":
+            self.paths = config["paths"]
+            se = [sub_interval(self.a[d], self.b[d], self.paths[d]) for d in range(self.dim)]
+            self.start = np.array([t[0] for t in se])
+            self.end = np.array([t[1] for t in se])
+            self.lv = list(config["lv"])
+        else:
+            self.trees = config["trees"]
+            self.nonmid = config["nonmid"]
             self.lv = [max(t[1]) for t in self.trees]
 
     def setup(self):
@@ -338,19 +432,71 @@ class _Ctx(object):
         return min(self.p, 2 ** m)
 
     def describe(self):
-        c = self.case
+        rd = "" if self.round == 0 else "[round %d (%s) on the same grid object] " % (self.round, self.round_kind)
         if self.kind == "local":
-            return "%s(p=%d,%s) a=%s b=%s start=%s end=%s level=%s" % (
-                "LagrangeGrid" if self.family == "lagrange" else "BSplineGrid", self.p, self.mode, self.a, self.b,
+            return "%s%s(p=%d,%s) a=%s b=%s start=%s end=%s level=%s" % (
+                rd, "LagrangeGrid" if self.family == "lagrange" else "BSplineGrid", self.p, self.mode, self.a, self.b,
                 self.start.tolist(), self.end.tolist(), self.lv)
-        return "%s(p=%d,%s) a=%s b=%s points=%s levels=%s" % (
-            "GlobalLagrangeGrid" if self.family == "lagrange" else "GlobalBSplineGrid", self.p, self.mode, self.a,
+        return "%s%s(p=%d,%s) a=%s b=%s points=%s levels=%s" % (
+            rd, "GlobalLagrangeGrid" if self.family == "lagrange" else "GlobalBSplineGrid", self.p, self.mode, self.a,
             self.b, [t[0][:9] for t in self.trees], [t[1][:9] for t in self.trees])
 
     def weighted_tree(self):
+        """some point of the current tree is not the arithmetic mid point of its hierarchical neighbours"""
         if self.kind == "local":
             return False
-        return any(abs(float(r) - 0.5) > 1e-12 for tr in self.case["trees"] for _, r in tr)
+        return bool(self.nonmid)
+
+
+def _has_weighted_ratio(splits):
+    return any(abs(float(r) - 0.5) > 1e-12 for tr in splits for _, r in tr)
+
+
+def info_max(out, key, value):
+    if isinstance(value, (int, float)) and not (isinstance(value, float) and value != value):
+        out.info[key] = max(out.info.get(key, value), value)
+
+
+def drive_rounds(case, sub, out, one_round):
+    """-> (cx, base round fully checked and structurally non-trivial).  Drive ONE grid object (and with it one integrator / hierarchisation object, as an adaptive run does) through
+    the rounds of the case; one_round(out, cx) -> False stops.  A violation that shows in a later round is re-checked
+    on a fresh grid object: if the same configuration is clean there, the cause is state kept from the earlier rounds
+    and the signature says so."""
+    cx = _Ctx(case)
+    rounds = cx.rounds()
+    if len(rounds) > 1:
+        out.cls("seq-rounds=%d" % len(rounds))
+    prev_levels = None
+    base_ok = None
+    for k, (kind, config) in enumerate(rounds):
+        cx.apply(k, kind, config)
+        if k > 0:
+            out.cls("seq:" + kind)
+            if kind == "relabel":
+                changed = any(config["trees"][d][1] != prev_levels[d] for d in range(cx.dim))
+                out.cls("seq:relabel-changed-levels" if changed else "seq:relabel-identical-levels")
+        if cx.kind == "global":
+            prev_levels = [list(t[1]) for t in config["trees"]]
+        cx.setup()
+        before = len(out.violations)
+        ok = one_round(out, cx)
+        if k == 0:
+            base_ok = bool(ok) and structural_nt(cx)        # the non-triviality rule is evaluated on the base round
+        if len(out.violations) > before and k > 0:
+            fresh = _Ctx(case)
+            fresh.apply(k, kind, config)
+            fresh.setup()
+            scratch = Outcome()
+            one_round(scratch, fresh)
+            if not scratch.violations:
+                tail = out.violations[before:]
+                del out.violations[before:]
+                for sig, msg in tail:
+                    out.bad(sig + "/only-after-earlier-rounds-on-the-same-grid-object",
+                            "(a fresh grid object set up for this configuration alone passes) " + msg)
+        if out.violations:
+            break
+    return cx, base_ok
 
 
 def common_classes(out, cx):
@@ -365,7 +511,7 @@ def common_classes(out, cx):
     if any(n == 1 for n in cx.shape):
         out.cls("single-point-dimension")
     if cx.kind == "local":
-        if any(len(p) > 0 for p in cx.case["paths"]):
+        if any(len(p) > 0 for p in cx.paths):
             out.cls("sub-box")
         if len(set(cx.lv)) > 1:
             out.cls("anisotropic-levels")
@@ -379,9 +525,11 @@ def common_classes(out, cx):
                 out.cls("strongly-graded(>1e3)")
             if max(ww) > 1.5 * min(ww):
                 out.cls("non-uniform-tree")
-    out.info["max_points_1d"] = nmax
-    out.info["max_points_total"] = int(math.prod(cx.shape))
-    out.info["max_dim"] = cx.dim
+    info_max(out, "max_points_1d", nmax)
+    info_max(out, "max_points_total", int(math.prod(cx.shape)))
+    info_max(out, "max_dim", cx.dim)
+    if cx.kind == "global":
+        info_max(out, "max_tree_level", max(cx.lv))
 
 
 def structural_nt(cx):
@@ -431,7 +579,7 @@ def collocation_clauses(out, sub, cx):
                 if any(v != 0.0 for v in other):                 # exact: one factor of the product is exactly zero
                     out.bad("%s/cardinality/other-knots" % sub, "%s: dim %d basis %d (knots %s, index %d) at its other knots: %s"
                             % (cx.describe(), d, j, kn, bf.index, other))
-    out.info["max_cond"] = min(cond, 1e300)
+    info_max(out, "max_cond", min(cond, 1e300))
     return mats, cond
 
 
@@ -474,7 +622,7 @@ def weight_clause(out, sub, cx, rng, count=4):
                         "%s: dim %d: stored integral of basis %d is %r, Gauss-Legendre(24) quadrature of its values over "
                         "[%r,%r] split at its knots gives %r" % (cx.describe(), d, j, w[j], lo, hi, ref))
                 break
-    out.info["basis_integral_rel_err"] = relmax
+    info_max(out, "basis_integral_rel_err", relmax)
 
 
 def random_points(cx, rng, m):
@@ -516,61 +664,70 @@ def run_roundtrip(case, sub):
     out = Outcome()
     rng = np.random.default_rng(int(case["rng"]))
     nout = int(case["out"])
-    cx = _Ctx(case)
-    cx.setup()
-    common_classes(out, cx)
+    vscale = float(case.get("vscale", 1.0))
     out.cls("output-length=%d" % nout)
-    N = int(math.prod(cx.shape))
-    if N == 0:
-        out.cls("empty-grid")
-        return out
-    V, table = make_table(cx, rng, nout, float(case.get("vscale", 1.0)))
-    f = FunctionCustom(_Table(table), output_dim=nout)
-    cx.integrate(f)
-    res = collocation_clauses(out, sub, cx)
-    if res is None:
-        return out
-    mats, cond = res
-    weight_clause(out, sub, cx, rng)
-    S_lib = np.asarray(cx.surplusses(), dtype=float)
-    if S_lib.shape != (nout, N):
-        out.bad(sub + "/surplus-shape", "%s: surplus array has shape %s, expected %s" % (cx.describe(), S_lib.shape, (nout, N)))
-        return out
-    vmax = float(np.max(np.abs(V)))
-    # (a) interpolate(own surpluses) is the plain tensor sum of surplus * basis values, everywhere (no solve involved)
-    pts = grid_points(cx)
-    extra = random_points(cx, rng, 8)
-    allpts = pts + extra
-    got = np.asarray(cx.interpolate(allpts), dtype=float)
-    E = [np.array([[float(bf(x[d])) for bf in cx.basis(d)] for x in allpts]) for d in range(cx.dim)]
-    S_t = S_lib.reshape([nout] + cx.shape)
-    ref_eval = tensor_eval(S_t, E)
-    sc = float(np.max(tensor_eval(np.abs(S_t), [np.abs(e) for e in E]))) + 1e-300
-    # tolerance 1e-11: both sides are the same sum in a different order (rounding seen 5e-16)
-    out.info["interp_vs_tensor_sum_rel"] = compare_nodal(
-        out, "%s/interpolate-is-tensor-sum/%s" % (sub, cx.kind), got, ref_eval, 1e-11, sc,
-        "%s: interpolate() at %d grid + %d random points vs sum of surplus*basis values" % (cx.describe(), len(pts), len(extra)))
-    if not cond <= COND_SKIP:
-        out.cls("ill-conditioned-skipped")
-        return out
-    tol = tol_cond(cond)
-    # (b) round trip: the nodal table comes back at all grid points
-    want = np.moveaxis(V, 0, -1).reshape(N, nout)
-    rel = compare_nodal(out, "%s/nodal-values/%s-%s" % (sub, cx.family, cx.mode), got[:N], want, tol, vmax,
-                        "%s: integrate() then interpolate(grid points), output length %d, cond %.2e" % (cx.describe(), nout, cond))
-    out.info["roundtrip_rel_err"] = rel
-    out.info["roundtrip_err_over_tol"] = rel / tol
-    # (c) surpluses == numpy solution of the Kronecker collocation system
-    S_ref = tensor_apply([np.linalg.inv(M) for M in mats], V)
-    smax = float(np.max(np.abs(S_ref))) + 1e-300
-    rel = compare_nodal(out, "%s/surpluses/%s-%s" % (sub, cx.family, cx.mode), S_t, S_ref, tol, smax,
-                        "%s: surpluses vs numpy solve of the collocation systems, cond %.2e" % (cx.describe(), cond))
-    out.info["surplus_err_over_tol"] = rel / tol
-    # (d) the hierarchisation operator called directly (observe_at of the property) gives the same surpluses
-    direct = HierarchizationLSG(cx.grid)(np.array(want.T, dtype=float), [int(n) for n in cx.shape], cx.grid)
-    compare_nodal(out, "%s/direct-operator-call/%s" % (sub, cx.kind), direct, S_lib, 1e-12 + 1e-15 * cond, smax,
-                  "%s: HierarchizationLSG(grid)(values, numPoints, grid) vs surpluses stored by integrate()" % cx.describe())
-    out.nontrivial = structural_nt(cx)
+    direct_op = {}
+
+    def one_round(out, cx):
+        """all clauses for the configuration the grid object is set up for; True = fully checked (not skipped)"""
+        common_classes(out, cx)
+        N = int(math.prod(cx.shape))
+        if N == 0:
+            out.cls("empty-grid")
+            return False
+        V, table = make_table(cx, rng, nout, vscale)           # a new nodal table in every round
+        f = FunctionCustom(_Table(table), output_dim=nout)
+        cx.integrate(f)
+        res = collocation_clauses(out, sub, cx)
+        if res is None:
+            return False
+        mats, cond = res
+        weight_clause(out, sub, cx, rng)
+        S_lib = np.asarray(cx.surplusses(), dtype=float)
+        if S_lib.shape != (nout, N):
+            out.bad(sub + "/surplus-shape", "%s: surplus array has shape %s, expected %s" % (cx.describe(), S_lib.shape, (nout, N)))
+            return False
+        vmax = float(np.max(np.abs(V)))
+        # (a) interpolate(own surpluses) is the plain tensor sum of surplus * basis values, everywhere (no solve involved)
+        pts = grid_points(cx)
+        extra = random_points(cx, rng, 8)
+        allpts = pts + extra
+        got = np.asarray(cx.interpolate(allpts), dtype=float)
+        E = [np.array([[float(bf(x[d])) for bf in cx.basis(d)] for x in allpts]) for d in range(cx.dim)]
+        S_t = S_lib.reshape([nout] + cx.shape)
+        ref_eval = tensor_eval(S_t, E)
+        sc = float(np.max(tensor_eval(np.abs(S_t), [np.abs(e) for e in E]))) + 1e-300
+        # tolerance 1e-11: both sides are the same sum in a different order (rounding seen 5e-16)
+        info_max(out, "interp_vs_tensor_sum_rel", compare_nodal(
+            out, "%s/interpolate-is-tensor-sum/%s" % (sub, cx.kind), got, ref_eval, 1e-11, sc,
+            "%s: interpolate() at %d grid + %d random points vs sum of surplus*basis values" % (cx.describe(), len(pts), len(extra))))
+        if not cond <= COND_SKIP:
+            out.cls("ill-conditioned-skipped")
+            return False
+        tol = tol_cond(cond)
+        # (b) round trip: the nodal table comes back at all grid points
+        want = np.moveaxis(V, 0, -1).reshape(N, nout)
+        rel = compare_nodal(out, "%s/nodal-values/%s-%s" % (sub, cx.family, cx.mode), got[:N], want, tol, vmax,
+                            "%s: integrate() then interpolate(grid points), output length %d, cond %.2e" % (cx.describe(), nout, cond))
+        info_max(out, "roundtrip_rel_err", rel)
+        info_max(out, "roundtrip_err_over_tol", rel / tol)
+        # (c) surpluses == numpy solution of the Kronecker collocation system
+        S_ref = tensor_apply([np.linalg.inv(M) for M in mats], V)
+        smax = float(np.max(np.abs(S_ref))) + 1e-300
+        rel = compare_nodal(out, "%s/surpluses/%s-%s" % (sub, cx.family, cx.mode), S_t, S_ref, tol, smax,
+                            "%s: surpluses vs numpy solve of the collocation systems, cond %.2e" % (cx.describe(), cond))
+        info_max(out, "surplus_err_over_tol", rel / tol)
+        # (d) the hierarchisation operator called directly (observe_at of the property) gives the same surpluses; one
+        # operator object per grid object, kept over the rounds
+        if id(cx) not in direct_op:
+            direct_op[id(cx)] = (cx, HierarchizationLSG(cx.grid))
+        direct = direct_op[id(cx)][1](np.array(want.T, dtype=float), [int(n) for n in cx.shape], cx.grid)
+        compare_nodal(out, "%s/direct-operator-call/%s" % (sub, cx.kind), direct, S_ref.reshape(nout, N), tol, smax,
+                      "%s: HierarchizationLSG(grid)(values, numPoints, grid) vs numpy solve of the collocation systems" % cx.describe())
+        return True
+
+    cx, base_ok = drive_rounds(case, sub, out, one_round)
+    out.nontrivial = bool(base_ok)
     return out
 
 
@@ -591,56 +748,62 @@ def run_polynomials(case):
     out = Outcome()
     sub = "polynomials"
     rng = np.random.default_rng(int(case["rng"]))
-    cx = _Ctx(case)
-    cx.setup()
-    common_classes(out, cx)
-    if int(math.prod(cx.shape)) == 0:
-        out.cls("empty-grid")
-        return out
-    kmax = [cx.kmax(d) for d in range(cx.dim)]
-    combos = {tuple([0] * cx.dim), tuple(min(1, k) for k in kmax), tuple(kmax)}
-    for d in range(cx.dim):
-        combos.add(tuple(kmax[e] if e == d else 0 for e in range(cx.dim)))
-        if kmax[d] >= 2:
-            combos.add(tuple(kmax[e] - 1 if e == d else min(1, kmax[e]) for e in range(cx.dim)))
-    combos = sorted(combos)
-    mid = [(cx.start[d] + cx.end[d]) / 2.0 for d in range(cx.dim)]
-    half = [(cx.end[d] - cx.start[d]) / 2.0 for d in range(cx.dim)]
-    mon = _Monos(combos, mid, half)
-    f = FunctionCustom(mon, output_dim=len(combos))
-    cx.integrate(f)
-    res = collocation_clauses(out, sub, cx)
-    if res is None:
-        return out
-    mats, cond = res
-    out.cls("demanded-degree=%d" % max(kmax))
-    if cx.family == "lagrange" and max(kmax) == cx.p and cx.p >= 3 or cx.family == "bspline" and max(kmax) == cx.p and cx.p >= 3:
-        out.cls("full-order-demanded(p>=3)")
-    if not cond <= COND_SKIP:
-        out.cls("ill-conditioned-skipped")
-        return out
-    pts = random_points(cx, rng, 24)
-    got = np.asarray(cx.interpolate(pts), dtype=float)
-    want = np.array([mon(x) for x in pts], dtype=float)
-    # scale 1: every test monomial is bounded by 1 on the box.  Observed on the unchanged tree: <= 2e-15*cond.
-    tol = tol_cond(cond)
-    err = np.abs(got - want) if got.shape == want.shape else None
-    if err is None or not np.all(np.isfinite(got)):
-        out.bad(sub + "/shape", "%s: interpolate returned shape %s" % (cx.describe(), got.shape))
-        return out
-    relmax = float(np.max(err))
-    out.info["poly_rel_err"] = relmax
-    out.info["poly_err_over_tol"] = relmax / tol
-    if not relmax <= tol:
-        ci = int(np.argmax(np.max(err, axis=0)))
-        ks = combos[ci]
-        kk = max(ks)
-        clause = "constants" if kk == 0 else "linear" if kk == 1 else "degree<=order-with-enough-points"
-        pi = int(np.argmax(err[:, ci]))
-        out.bad("%s/%s/%s-%s-%s" % (sub, clause, cx.kind, cx.family, cx.mode),
-                "%s: monomial t^%s (demanded degrees %s, cond %.2e) at x=%s: interpolant %r, exact %r (tolerance %.2g)"
-                % (cx.describe(), list(ks), kmax, cond, pts[pi], got[pi, ci], want[pi, ci], tol))
-    out.nontrivial = structural_nt(cx) and max(kmax) >= 2
+    seen = dict(kmax=0)
+
+    def one_round(out, cx):
+        common_classes(out, cx)
+        if int(math.prod(cx.shape)) == 0:
+            out.cls("empty-grid")
+            return False
+        kmax = [cx.kmax(d) for d in range(cx.dim)]
+        combos = {tuple([0] * cx.dim), tuple(min(1, k) for k in kmax), tuple(kmax)}
+        for d in range(cx.dim):
+            combos.add(tuple(kmax[e] if e == d else 0 for e in range(cx.dim)))
+            if kmax[d] >= 2:
+                combos.add(tuple(kmax[e] - 1 if e == d else min(1, kmax[e]) for e in range(cx.dim)))
+        combos = sorted(combos)
+        mid = [(cx.start[d] + cx.end[d]) / 2.0 for d in range(cx.dim)]
+        half = [(cx.end[d] - cx.start[d]) / 2.0 for d in range(cx.dim)]
+        mon = _Monos(combos, mid, half)
+        f = FunctionCustom(mon, output_dim=len(combos))
+        cx.integrate(f)
+        res = collocation_clauses(out, sub, cx)
+        if res is None:
+            return False
+        mats, cond = res
+        out.cls("demanded-degree=%d" % max(kmax))
+        if max(kmax) == cx.p and cx.p >= 3:
+            out.cls("full-order-demanded(p>=3)")
+        if not cond <= COND_SKIP:
+            out.cls("ill-conditioned-skipped")
+            return False
+        pts = random_points(cx, rng, 24)
+        got = np.asarray(cx.interpolate(pts), dtype=float)
+        want = np.array([mon(x) for x in pts], dtype=float)
+        # scale 1: every test monomial is bounded by 1 on the box.  Observed on the unchanged tree: <= 2e-15*cond.
+        tol = tol_cond(cond)
+        err = np.abs(got - want) if got.shape == want.shape else None
+        if err is None or not np.all(np.isfinite(got)):
+            out.bad(sub + "/shape", "%s: interpolate returned shape %s" % (cx.describe(), got.shape))
+            return False
+        relmax = float(np.max(err))
+        info_max(out, "poly_rel_err", relmax)
+        info_max(out, "poly_err_over_tol", relmax / tol)
+        if not relmax <= tol:
+            ci = int(np.argmax(np.max(err, axis=0)))
+            ks = combos[ci]
+            kk = max(ks)
+            clause = "constants" if kk == 0 else "linear" if kk == 1 else "degree<=order-with-enough-points"
+            pi = int(np.argmax(err[:, ci]))
+            out.bad("%s/%s/%s-%s-%s" % (sub, clause, cx.kind, cx.family, cx.mode),
+                    "%s: monomial t^%s (demanded degrees %s, cond %.2e) at x=%s: interpolant %r, exact %r (tolerance %.2g)"
+                    % (cx.describe(), list(ks), kmax, cond, pts[pi], got[pi, ci], want[pi, ci], tol))
+        if cx.round == 0:
+            seen["kmax"] = max(kmax)
+        return True
+
+    cx, base_ok = drive_rounds(case, sub, out, one_round)
+    out.nontrivial = bool(base_ok) and seen["kmax"] >= 2
     return out
 
 
@@ -1027,6 +1190,17 @@ def _local_case(draw, tier, poly=False, maxdim=3):
     paths = [draw(st.lists(st.integers(0, 1), min_size=0, max_size=3)) if mode == "boundary" else [] for _ in range(dim)]
     case = dict(kind="local", family=family, p=p, mode=mode, a=a, len=ln, paths=paths, lv=lv,
                 rng=draw(st.integers(0, 2 ** 31 - 1)))
+    if draw(st.integers(0, 3)) == 0:
+        # the same grid object visits 1-2 other areas (as extend-split does) and possibly the first one again
+        seq = []
+        for _ in range(draw(st.integers(1, 2))):
+            lv2 = [draw(st.integers(lmin, 3)) for _ in range(dim)]
+            paths2 = [draw(st.lists(st.integers(0, 1), min_size=0, max_size=3)) if mode == "boundary" else []
+                      for _ in range(dim)]
+            seq.append(dict(kind="area", paths=paths2, lv=lv2))
+        if draw(st.booleans()):
+            seq.append(dict(kind="back"))
+        case["seq"] = seq
     if not poly:
         case["out"] = draw(st.sampled_from([1, 2, 3]))
         case["vscale"] = draw(st.sampled_from([1.0, 1.0, 1e3, 1e-3]))
@@ -1069,8 +1243,27 @@ def _global_case(draw, tier, poly=False, maxdim=3):
             hi = max(hi, lo)
         trees.append(draw(_tree(hi, min_complete=0 if small else need, min_splits=lo,
                                 max_level=(11 if tier == "quick" else 13) if family == "bspline" else 60)))
-    case = dict(kind="global", family=family, p=p, mode=mode, a=a, len=ln, trees=trees,
+    max_level = (11 if tier == "quick" else 13) if family == "bspline" else 60
+    case = dict(kind="global", family=family, p=p, mode=mode, a=a, len=ln, trees=trees, max_level=max_level,
                 rng=draw(st.integers(0, 2 ** 31 - 1)))
+    if draw(st.integers(0, 2)) == 0:
+        # ONE grid object is driven through 2-4 set_grid + integrate + interpolate rounds
+        kinds = draw(st.sampled_from([["relabel"], ["relabel", "back"], ["relabel", "back"], ["refine", "relabel", "back"],
+                                      ["refine", "back"], ["coarsen", "back"], ["relabel", "refine"],
+                                      ["coarsen", "relabel", "back"], ["relabel", "relabel"]]))
+        seq = []
+        for k in kinds:
+            if k == "relabel":
+                seq.append(dict(kind=k, rng=draw(st.integers(0, 2 ** 31 - 1))))
+            elif k == "refine":
+                seq.append(dict(kind=k, splits=[[[draw(st.integers(0, 60)), draw(st.sampled_from([0.5, 0.5, 0.3, 0.7]))]
+                                                 for _ in range(draw(st.integers(1, 4 if dim < 3 else 2)))]
+                                                for _ in range(dim)]))
+            elif k == "coarsen":
+                seq.append(dict(kind=k, keep=[draw(st.sampled_from([0.25, 0.5, 0.75])) for _ in range(dim)]))
+            else:
+                seq.append(dict(kind=k))
+        case["seq"] = seq
     if not poly:
         case["out"] = draw(st.sampled_from([1, 2, 3]))
         case["vscale"] = draw(st.sampled_from([1.0, 1.0, 1e3, 1e-3]))
@@ -1093,6 +1286,7 @@ def interpolate_grid_strategy(tier):
     @st.composite
     def s(draw):
         case = draw(st.one_of(_local_case(tier, maxdim=2), _global_case(tier, maxdim=2)))
+        case.pop("seq", None)
         if case["kind"] == "local":
             case["lv"] = [min(l, 3) for l in case["lv"]]
         else:
@@ -1169,6 +1363,17 @@ def roundtrip_fixed():
         for mode, k in (("boundary", 12), ("boundary", 13), ("noboundary", 14), ("noboundary", 15)):
             res.append(dict(kind="global", family=fam, p=p, mode=mode, a=[0.0], len=[1.0],
                             trees=[complete_splits(3) + [[i, 0.5] for i in range(k - 7)]], out=2, vscale=1.0, rng=2))
+    # one grid object, several rounds: same points with another level labelling, refined, back (dense and QR sizes)
+    for fam, p in (("lagrange", 2), ("lagrange", 3), ("bspline", 3)):
+        for depth in (2, 4):
+            res.append(dict(kind="global", family=fam, p=p, mode="boundary", a=[0.0], len=[1.0],
+                            trees=[complete_splits(depth) + [[0, 0.5], [0, 0.5]]], max_level=11, out=2, vscale=1.0, rng=3,
+                            seq=[dict(kind="relabel", rng=1), dict(kind="back")]))
+        res.append(dict(kind="global", family=fam, p=p, mode="noboundary", a=[-1.0, 2.0], len=[3.0, 0.5],
+                        trees=[complete_splits(2) + [[1, 0.5]], [[0, 0.5], [0, 0.5], [0, 0.5], [3, 0.5]]], max_level=11,
+                        out=1, vscale=1.0, rng=4,
+                        seq=[dict(kind="refine", splits=[[[2, 0.5]], [[1, 0.5], [5, 0.5]]]), dict(kind="relabel", rng=2),
+                             dict(kind="back")]))
     return res
 
 
